@@ -46,6 +46,19 @@ C12_SequenceReceives == IsSeq =>
   LET m == MapOf(Cur.map)
       ks == DistinctKeys(m)
   IN  \A i \in 1..Len(Cur.reqs) : Cur.regs[i] \in WriteSetForK(m, ks, Cur.reqs[i])
+\* which values the fan "supports": a PWM map given in the fan's configuration is the map that is used - whatever an
+\* earlier run stored for the same fan (the stored map is a cache of a sweep, not a second source to be mixed in) - and
+\* what is written afterwards are outputs of THAT map
+IsSrc == l <= N /\ Recs[l].ev = "MapSrc"
+C12_ConfiguredMapIsUsed == IsSrc /\ Len(Cur.cfg) > 0 =>
+  LET m == MapOf(Cur.cfg)
+      ks == DistinctKeys(m)
+  IN  /\ ~Cur.err /\ MapOf(Cur.got) = m
+      /\ \A i \in 1..Len(Cur.reqs) : Cur.regs[i] \in WriteSetForK(m, ks, Cur.reqs[i])
+\* conformance (drift): without a configured map the stored one is used, and with neither the sweep of an exact register
+\* finds the identity
+G12_StoredOrSwept == IsSrc /\ Len(Cur.cfg) = 0 =>
+  IF Len(Cur.stored) > 0 THEN MapOf(Cur.got) = MapOf(Cur.stored) ELSE MapOf(Cur.got) = [v \in 0..255 |-> v]
 \* conformance with the tie-breaking of the model of the code (larger neighbour)
 C12_ConformsCoded == Has =>
   LET ks == DistinctKeys(MapOf(Cur.map))
